@@ -1,0 +1,37 @@
+//go:build verif
+
+package plugin
+
+import (
+	"io"
+
+	hclog "github.com/hashicorp/go-hclog"
+	"github.com/hashicorp/go-plugin/internal/verifhook"
+)
+
+// This file exists only under the "verif" build tag. It gives the external
+// verification harness access to a few unexported pure functions and fields.
+
+// VerifProtocolVersion exposes protocolVersion.
+func VerifProtocolVersion(opts *ServeConfig) (int, Protocol, PluginSet) {
+	return protocolVersion(opts)
+}
+
+// VerifCopyChan exposes copyChan.
+func VerifCopyChan(log hclog.Logger, dst chan<- []byte, src io.Reader) {
+	copyChan(log, dst, src)
+}
+
+// VerifGRPCBrokers returns the brokers of an in-process client/server pair.
+func VerifGRPCBrokers(c *GRPCClient, s *GRPCServer) (*GRPCBroker, *GRPCBroker) {
+	return c.broker, s.broker
+}
+
+// VerifMuxBroker returns the broker of a net/rpc client.
+func VerifMuxBroker(c *RPCClient) *MuxBroker { return c.broker }
+
+// VerifKilled exposes (*Client).killed.
+func VerifKilled(c *Client) bool { return c.killed() }
+
+// VerifSetHook installs a handler for the verifhook points.
+func VerifSetHook(h func(name string, id uint32)) { verifhook.Set(h) }
